@@ -40,10 +40,13 @@ def run_one(name, tier, seed):
         print("EXTRA %s: MACHINERY-FAILURE unexpected %s: %s" % (name, type(ex).__name__, ex))
         return 2, None
     status = "ok"
+    parts = []
     if out.violations:
-        status = "L1-failed (%d): %s" % (len(out.violations), "; ".join(sorted({v.clause for v in out.violations}))[:300])
-    elif out.drift:
-        status = "drift (%d): %s" % (len(out.drift), out.drift[0][:200])
+        parts.append("L1-failed (%d): %s" % (len(out.violations), "; ".join(sorted({v.clause for v in out.violations}))[:300]))
+    if out.drift:
+        parts.append("drift (%d): %s" % (len(out.drift), out.drift[0][:200]))
+    if parts:
+        status = " + ".join(parts)
     summary = {
         "name": name,
         "status": status,
